@@ -147,6 +147,35 @@ def _join_row(draw, P, paths):
     return _row(cells)
 
 
+def _mixed_row(draw, P, paths):
+    """ONE row that joins a run of sub-spines and splits another path ('*v *v *^'): joining two and splitting one leaves the
+    number of columns as it was while the spine boundaries move"""
+    runs = _runs(paths.sp)
+    if not runs:
+        return None
+    a, b = draw(st.sampled_from(runs))
+    if b - a >= 2 and draw(st.booleans()):
+        b = a + 1
+    cands = [k for k in range(len(paths.sp)) if not a <= k <= b and paths.sp.count(paths.sp[k]) < P['max_sub']]
+    if not cands or len(paths.sp) - (b - a) + 1 > P['max_width']:
+        return None
+    ksplit = draw(st.sampled_from(cands))
+    cells, new = [], []
+    for k, s in enumerate(paths.sp):
+        if a <= k <= b:
+            cells.append(G.op_cell('*v'))
+            if k == a:
+                new.append(s)
+        elif k == ksplit:
+            cells.append(G.op_cell('*^'))
+            new += [s, s]
+        else:
+            cells.append(G.nullinterp_cell())
+            new.append(s)
+    paths.sp = new
+    return _row(cells)
+
+
 def _term_row(draw, P, paths):
     if len(paths.sp) < 2:
         return None
@@ -255,6 +284,11 @@ def _event(draw, P, paths, rows, state):
                             rows.append(r2)
                             rows.append(_row([_data_cell(draw, P, paths.typ(k)) for k in range(len(paths.sp))]))
     elif x in (17, 18) and P['splits']:
+        r = _mixed_row(draw, P, paths) if P.get('mixed_op_rows', True) and draw(st.integers(0, 2)) == 0 else None
+        if r:
+            rows.append(r)
+            rows.append(_row([_data_cell(draw, P, paths.typ(k)) for k in range(len(paths.sp))]))
+            return
         r = _join_row(draw, P, paths)
         if r:
             rows.append(r)
